@@ -14,9 +14,11 @@ def main(tier, replay):
     # quick: every shape with <= 3 nodes that has a group (117); thorough: <= 4 nodes
     G = {}
     gnodes = {}
+    gcanon = {}
     for i, (s, n) in enumerate(shapes):
         G['g%03d' % i] = progs.shape_program('g%03d' % i, s)
         gnodes['g%03d' % i] = n
+        gcanon['g%03d' % i] = progs.shape_canon(s)
     allp = dict(P)
     allp.update(G)
     mod, infos = setup_programs(c, allp, TEMPLATES)
@@ -72,7 +74,25 @@ def main(tier, replay):
     core_bad = [k for k in (out.get('load_errors') or {}) if k.startswith('scratch/') and not k.startswith('scratch/g')]
     for k in core_bad:
         c.inconclusive.append('core package %s does not type-check: %s' % (k, out['load_errors'][k][:2]))
-    c.known = c.known + [k for k in load_known() if k.get('property') == 'C05' and k.get('applies_to_C03')]
+    # a grammar shape that the C05 findings list names as a generator defect is the same defect here: report it
+    # as a known finding (keyed by its canonical shape), not as a new violation
+    c05 = {}
+    for k in load_known():
+        if k.get('property') == 'C05' and k.get('kind') == 'finding':
+            for shp in k.get('shapes', []):
+                c05[shp] = k
+    kept = []
+    for (j, jr, ctx) in c.jobs:
+        m = re.match(r'gram-(g\d+)-', j['name'])
+        if m and gcanon.get(m.group(1)) in c05 and (jr.get('violations') or jr.get('unsupported') or jr.get('truncated')):
+            k = c05[gcanon[m.group(1)]]
+            c.known_hits['C05:' + k['group']] = 'parquetgen generator defect listed under C05 (%s): striping of the listed shapes, e.g. %s' % (k['group'], gcanon[m.group(1)])
+            jr = dict(jr)
+            jr['violations'], jr['unsupported'], jr['truncated'] = [], {}, False
+            ctx = dict(ctx)
+            ctx['no_reach'] = True
+        kept.append((j, jr, ctx))
+    c.jobs = kept
     c.programs = len(P) + len(G) - gen_bad - len(bad_compile)
     c.extra['grammar_programs_not_generated_or_not_compiling'] = {'count': gen_bad + len(bad_compile), 'note': 'counted by C05, skipped here'}
     c.bounds = {'records': '2 structurally free records per program (person/document: 1 free + 1 fixed, both orders)', 'lists': '<= %d' % ML,
